@@ -88,7 +88,8 @@ ObsCbB(e) ==
     ELSE /\ rnext' = IF r.dir = "R" /\ e.err = "nil" /\ e.n > 0 THEN [rnext EXCEPT ![r.o] = e.tok + (IF r.all THEN e.n ELSE 1)] ELSE rnext
          /\ ops' = [ops EXCEPT ![e.op].st = "done", ![e.op].err = e.err]
          /\ ranp' = IF ranp = "" THEN "" ELSE "y"
-         /\ anomaly' = IF IsErrno(e.err) /\ ~r.ret THEN "failed-registration:" \o Kind(r.o)
+         /\ anomaly' = IF anomaly = "descriptor-replaced" THEN anomaly
+                       ELSE IF IsErrno(e.err) /\ ~r.ret THEN "failed-registration:" \o Kind(r.o)
                        ELSE IF IsErrno(e.err) THEN "errno-completion:" \o Kind(r.o) ELSE anomaly
          /\ UNCHANGED <<kinds, cls, lim, base, ost, csnap, tm, posted, bad>>
 
@@ -103,7 +104,9 @@ ObsCancelE(e) ==
   \*  Close no callback may run, so its remaining operations are dropped)
   ELSE IF ost[e.o] = "open" /\ \E id \in csnap[1].ids : ops[id].st # "done"
        THEN Fail("C01/cancel-incomplete/" \o Kind(e.o))
-  ELSE IF \E id \in csnap[1].ids : ops[id].st = "done" /\ ops[id].err # "cancelled"
+  \* (once the program has replaced a descriptor underneath its object the poller's own error may be what
+  \*  Cancel reports: the statements do not speak about that situation)
+  ELSE IF (\E id \in csnap[1].ids : ops[id].st = "done" /\ ops[id].err # "cancelled") /\ anomaly # "descriptor-replaced"
        THEN Fail("C01/cancel-wrong-error/" \o Kind(e.o))
   ELSE /\ csnap' = Tail(csnap)
        /\ UNCHANGED <<kinds, cls, lim, base, ost, ops, tm, posted, ranp, anomaly, rnext, bad>>
@@ -231,7 +234,9 @@ ObsStuck(e) ==
 \* ledger was empty or a generous budget expired, and waited out due timers
 ObsEnd(e) ==
   IF cls = "signal" /\ InFlight # {} /\ "C03" \in Focus THEN Fail("C03/event-lost-after-signal")
-  ELSE IF InFlight # {} THEN
+  \* (an operation parked on a descriptor that the program replaced underneath the object waits for ever:
+  \*  the kernel dropped the registration with the old file)
+  ELSE IF InFlight # {} /\ anomaly # "descriptor-replaced" THEN
      LET id == CHOOSE id \in InFlight : TRUE IN Fail("C01/never-completed/" \o Kind(ops[id].o))
   ELSE IF \E t \in DOMAIN tm : tm[t].st = "once" THEN Fail("C04/not-fired")
   ELSE IF posted # {} THEN Fail("C05/not-run")
@@ -249,7 +254,10 @@ Obs(e) ==
     [] e.ev = "CancelE"  -> ObsCancelE(e)
     [] e.ev = "CloseB"   -> ObsCloseB(e)
     [] e.ev = "CloseE"   -> ObsCloseE(e)
-    [] e.ev = "Env"      -> Skip
+    [] e.ev = "Env"      -> IF e.api = "yank" /\ anomaly = ""
+                              THEN /\ anomaly' = "descriptor-replaced"
+                                   /\ UNCHANGED <<kinds, cls, lim, base, ost, ops, csnap, tm, posted, ranp, rnext, bad>>
+                              ELSE Skip
     [] e.ev = "TNew"     -> Skip      \* a timer is created in mid-scenario
     [] e.ev = "Open"     -> Skip      \* an object is created in mid-scenario (nothing of it was observable before)
     [] e.ev = "PollB"    -> ObsPollB(e)
